@@ -171,7 +171,7 @@ macro_rules! c17_lru {
     };
 }
 
-c17_lru!(c17_lru_cap2_recency, quick, 20, lru_cap2_recency(), "recency");
-c17_lru!(c17_lru_cap1_evict, quick, 20, lru_cap1(), "capacity 1");
-c17_lru!(c17_lru_cap2_remove_reuse, quick, 20, lru_cap2_reuse::<false>(), "remove then refill");
-c17_lru!(c17_lru_cap2_clear_reuse, quick, 20, lru_cap2_reuse::<true>(), "clear then refill");
+c17_lru!(c17_lru_cap2_recency, probe, 20, lru_cap2_recency(), "recency");
+c17_lru!(c17_lru_cap1_evict, probe, 20, lru_cap1(), "capacity 1");
+c17_lru!(c17_lru_cap2_remove_reuse, probe, 20, lru_cap2_reuse::<false>(), "remove then refill");
+c17_lru!(c17_lru_cap2_clear_reuse, probe, 20, lru_cap2_reuse::<true>(), "clear then refill");
